@@ -239,13 +239,39 @@ static void cmd_ctlmt(const J& c)
     verif::get().observe = nullptr;
     verif::get().slice_len = 0;
     g_gate = nullptr;
+    // "post": after both threads are done the embedder goes on alone - it loads the script again ("load") and issues
+    // further actions; every one is reported with the number of instructions it executed
+    const std::string final_state = state_name(rt.runtime_state());     // (the outcome of the two threads: before the post phase)
+    const long long final_nctx = (long long)nctx(rt);
+    const bool final_exitreq = rt.is_exit_requested();
+    const long long final_instr = (long long)g_instr.load();
+    long long post_exec = 0, post_steps = 0;
+    bool post_bad_res = false;
+    if (c.has("post"))
+    {
+        verif::get().observe = &count_hook;
+        for (auto& a : c.at("post").a)
+        {
+            if (a.s == "load")
+            {
+                auto set = compile(rt, text, "ctl.sqf", false);
+                if (set.has_value()) { add_context(rt, *set, "ctl2", false); }
+                continue;
+            }
+            long long before = g_instr.load();
+            auto res = rt.execute(action_of(a.s));
+            if (a.s == "assembly_step") { post_steps++; post_exec += g_instr.load() - before; if (res != runtime::result::ok) { post_bad_res = true; } }
+        }
+        verif::get().observe = nullptr;
+    }
     J f = ev("Final");
-    f.set("instr", (long long)g_instr.load());
+    f.set("post_steps", post_steps).set("post_exec", post_exec).set("post_bad_res", post_bad_res);
+    f.set("instr", final_instr);
     f.set("deadline", deadline_hit.load());
     f.set("overlap", (long long)g.overlap);
     // how long the executor's (last) call went on after the request flag had been written (-1: no flag / it ended before)
     f.set("lag_ms", (g_flag_ms.load() >= 0 && g_exec_end_ms.load() >= g_flag_ms.load()) ? g_exec_end_ms.load() - g_flag_ms.load() : -1LL);
-    f.set("state", state_name(rt.runtime_state())).set("nctx", (long long)nctx(rt)).set("exitreq", rt.is_exit_requested());
+    f.set("state", final_state).set("nctx", final_nctx).set("exitreq", final_exitreq);
     emit(f);
 }
 static registrar r2("ctlmt", cmd_ctlmt);
